@@ -228,37 +228,40 @@ type dir struct {
 	pb       *pb.Directory
 	children map[digest.Digest]*pb.Directory
 	*info
+	// offset is the number of entries already returned by ReadDir
+	offset int
 }
 
 // ReadDir implements listing the contents of a directory stored in the CAS. This is entirely based off the original
 // data from the Tree proto so doesn't do any additional fetching.
+// As io/fs.ReadDirFile requires, successive calls continue where the previous one stopped, and with n > 0 the end
+// of the directory is reported as io.EOF.
 func (p *dir) ReadDir(n int) ([]iofs.DirEntry, error) {
-	dirSize := n
-	if n <= 0 {
-		dirSize = len(p.pb.Files) + len(p.pb.Symlinks) + len(p.pb.Files)
-	}
-	ret := make([]iofs.DirEntry, 0, dirSize)
+	all := make([]iofs.DirEntry, 0, len(p.pb.Directories)+len(p.pb.Files)+len(p.pb.Symlinks))
 	for _, dirNode := range p.pb.Directories {
-		if n > 0 && len(ret) == n {
-			return ret, nil
-		}
 		dir := p.children[digest.NewFromProtoUnvalidated(dirNode.Digest)]
-		ret = append(ret, newDirInfo(dirNode.Name, dir))
+		all = append(all, newDirInfo(dirNode.Name, dir))
 	}
 	for _, file := range p.pb.Files {
-		if n > 0 && len(ret) == n {
-			return ret, nil
-		}
-
-		ret = append(ret, newFileInfo(file))
+		all = append(all, newFileInfo(file))
 	}
 	for _, link := range p.pb.Symlinks {
-		if n > 0 && len(ret) == n {
-			return ret, nil
-		}
-		ret = append(ret, newSymlinkInfo(link))
+		all = append(all, newSymlinkInfo(link))
 	}
-	return ret, nil
+	if p.offset > len(all) {
+		p.offset = len(all)
+	}
+	rest := all[p.offset:]
+	if n <= 0 {
+		p.offset = len(all)
+		return rest, nil
+	} else if len(rest) == 0 {
+		return nil, io.EOF
+	} else if len(rest) > n {
+		rest = rest[:n]
+	}
+	p.offset += len(rest)
+	return rest, nil
 }
 
 func (p *dir) Stat() (iofs.FileInfo, error) {
